@@ -21,7 +21,12 @@
 //!      never repeated), the environment of both runs is the same history, the crashed run additionally gets a
 //!      recovery round after each restart; whatever entity of the FINAL time point the twin certified / produced
 //!      an artifact for must be certified / have an artifact in the crashed run too, and the aggregator must not
-//!      end blocked when the twin does not.
+//!      end blocked when the twin does not;
+//!   O5 no round stays open with its quorum stored (same clause as C16's, evaluated on every cycle of the run, in
+//!      particular on the cycles after a restart): when the signatures that parties got stored under their own
+//!      name for the open message the state machine is working on reach the quorum, that cycle certifies it. This
+//!      is the "interrupted round is completed" half of the progress clause, judged where it happens rather than
+//!      at the end of the epilogue, three epochs later, where a round that stayed stuck has long been superseded.
 
 use std::collections::{BTreeMap, BTreeSet, VecDeque};
 use std::sync::{Arc, Mutex};
@@ -404,7 +409,7 @@ async fn snapshot(run: &mut Run, out: &mut Outcome) {
 }
 
 fn opts() -> RunOpts {
-    RunOpts { certificates: false, rows: false, client_verifier: false, signers_by_true_key: false, expect_certificate_on_honest_quorum: false, sign_once: true }
+    RunOpts { certificates: false, rows: false, client_verifier: false, signers_by_true_key: false, expect_certificate_on_honest_quorum: true, sign_once: true }
 }
 
 /// resolved stop: (point name, occurrence counted since the process started, ticks after restart)
@@ -528,7 +533,7 @@ pub fn execute(cfg: &SutConfig, ops: &[Op], stops: &[Resolved]) -> Outcome {
         rt.block_on(snapshot(&mut run, &mut out));
     }
     for l in run.labels.iter() {
-        if l.starts_with("tick-err") || l.starts_with("sign:") && l.contains("buffered") || l == "sign:already-acknowledged" || l == "artifact-task-not-settled" {
+        if l.starts_with("tick-err") || l.starts_with("sign:") && l.contains("buffered") || l == "sign:already-acknowledged" || l == "artifact-task-not-settled" || l == "honest-quorum-certified" {
             out.labels.insert(l.clone());
         }
     }
